@@ -82,6 +82,7 @@ mod dq {
     use ractor::{Actor, ActorProcessingErr, ActorRef};
     use std::sync::{Arc, Mutex};
     pub type Log = Arc<Mutex<Vec<u64>>>;
+    pub static EVENTS_HANDLED: std::sync::atomic::AtomicU64 = std::sync::atomic::AtomicU64::new(0);
     pub struct Rec {
         pub yields: u64,
     }
@@ -97,6 +98,10 @@ mod dq {
                 tokio::task::yield_now().await;
             }
             s.lock().unwrap().push(m);
+            Ok(())
+        }
+        async fn handle_supervisor_evt(&self, _: ActorRef<u64>, _m: ractor::SupervisionEvent, _s: &mut Log) -> Result<(), ActorProcessingErr> {
+            EVENTS_HANDLED.fetch_add(1, std::sync::atomic::Ordering::AcqRel);
             Ok(())
         }
     }
@@ -135,6 +140,10 @@ mod dq {
             s.0.lock().unwrap().push(m);
             Ok(())
         }
+        async fn handle_supervisor_evt(&self, _: ActorRef<u64>, _m: ractor::SupervisionEvent, _s: &mut (Log, u64)) -> Result<(), ActorProcessingErr> {
+            EVENTS_HANDLED.fetch_add(1, std::sync::atomic::Ordering::AcqRel);
+            Ok(())
+        }
     }
 }
 
@@ -163,8 +172,18 @@ pub fn dequeue(a: &Args) {
     let ev_thread = if supevts > 0 {
         let child = rt.block_on(async { dq::Sup::spawn_linked(None, dq::Sup, Default::default(), actor.get_cell()).await.unwrap().0 });
         Some(std::thread::spawn(move || {
+            // one at a time: the next event once the previous one was handled, so each lands at an arbitrary instant of the receive loop
+            use std::sync::atomic::Ordering;
             for _ in 0..supevts {
+                let before = dq::EVENTS_HANDLED.load(Ordering::Acquire);
                 child.get_cell().notify_supervisor(ractor::SupervisionEvent::ActorStarted(child.get_cell()));
+                let t0 = std::time::Instant::now();
+                while dq::EVENTS_HANDLED.load(Ordering::Acquire) == before {
+                    std::hint::spin_loop();
+                    if t0.elapsed() > std::time::Duration::from_millis(500) {
+                        return;
+                    }
+                }
             }
         }))
     } else {
@@ -301,4 +320,88 @@ pub fn request(a: &Args) {
     println!("starts_after={}", l[at_request..].iter().filter(|x| x.starts_with('s')).count());
     println!("log={}", l.join(","));
     println!("terms={}", terms.lock().unwrap().join(","));
+}
+
+/// C07 loop side: the window in which the last in-flight sender emits the drain marker before the drainer has published `Draining`, on a real actor.
+/// Thread 0 casts one message, thread 1 calls drain(), thread 2 only pauses (until the actor loop - which runs freely on the runtime - has had time to
+/// dequeue the message and the marker). The schedule makes the sender take its ticket, lets the drainer close the admission word, lets the sender
+/// enqueue, drop the ticket and send the marker, pauses, and only then lets the drainer publish `Draining`.
+pub fn marker_window(a: &Args) {
+    use ractor::Actor;
+    let tl = a.u64("tl") == 1;
+    let rt = tokio::runtime::Builder::new_multi_thread().worker_threads(2).enable_all().build().unwrap();
+    let log: dq::Log = Default::default();
+    let terms: dq::Terms = Default::default();
+    let (sup, sup_handle) = rt.block_on(async { dq::Sup::spawn(None, dq::Sup, terms.clone()).await.unwrap() });
+    let (actor, handle): (ractor::ActorRef<u64>, ractor::concurrency::JoinHandle<()>) = rt.block_on(async {
+        if tl {
+            use ractor::thread_local::ThreadLocalActor;
+            let spawner = ractor::thread_local::ThreadLocalActorSpawner::new();
+            dq::RecTl::spawn_linked(None, (log.clone(), 0), sup.get_cell(), spawner).await.unwrap()
+        } else {
+            dq::Rec::spawn_linked(None, dq::Rec { yields: 0 }, log.clone(), sup.get_cell()).await.unwrap()
+        }
+    });
+    let sched = "0:status.load,0:message_admission.load,0:message_admission.cas,1:message_admission.fetch_or,0:message.send,0:message_admission.fetch_sub,\
+                 0:message_admission.load,0:message_admission.cas,0:message.send,2:pause,2:pause,1:status.fetch_update,1:message_admission.load";
+    let schedule: Vec<(usize, String)> = sched.split(',').map(|s| s.trim().split_once(':').map(|(t, l)| (t.parse().unwrap(), l.to_string())).unwrap()).collect();
+    vh::install_labelled_schedule(schedule, 3);
+    let s = {
+        let r = actor.clone();
+        std::thread::spawn(move || {
+            vh::enter_thread(0);
+            let ok = r.cast(7).is_ok();
+            vh::leave_thread();
+            ok
+        })
+    };
+    let d = {
+        let r = actor.clone();
+        std::thread::spawn(move || {
+            vh::enter_thread(1);
+            let ok = r.drain().is_ok();
+            vh::leave_thread();
+            ok
+        })
+    };
+    let p = {
+        let log = log.clone();
+        std::thread::spawn(move || {
+            vh::enter_thread(2);
+            vh::point("pause");
+            let t0 = std::time::Instant::now();
+            while log.lock().unwrap().is_empty() && t0.elapsed() < std::time::Duration::from_secs(2) {
+                std::thread::yield_now();
+            }
+            std::thread::sleep(std::time::Duration::from_millis(200));
+            vh::point("pause");
+            vh::leave_thread();
+        })
+    };
+    let sent = s.join().unwrap();
+    let drained = d.join().unwrap();
+    p.join().unwrap();
+    let order = vh::take_log();
+    let again = actor.drain().is_ok();
+    let refused = actor.cast(8).is_err();
+    let ended = rt.block_on(async { tokio::time::timeout(std::time::Duration::from_secs(3), handle).await.is_ok() });
+    rt.block_on(async {
+        for _ in 0..100 {
+            if !terms.lock().unwrap().is_empty() || !ended {
+                break;
+            }
+            tokio::time::sleep(std::time::Duration::from_millis(5)).await;
+        }
+        sup.stop(None);
+        let _ = tokio::time::timeout(std::time::Duration::from_secs(5), sup_handle).await;
+    });
+    println!("sent={}", sent as u8);
+    println!("drained={}", drained as u8);
+    println!("second_drain_ok={}", again as u8);
+    println!("later_send_refused={}", refused as u8);
+    println!("ended={}", ended as u8);
+    println!("status={}", actor.get_status() as u8);
+    println!("handled={}", log.lock().unwrap().iter().map(|x| x.to_string()).collect::<Vec<_>>().join(","));
+    println!("terms={}", terms.lock().unwrap().join(","));
+    println!("order={}", order.iter().map(|(t, l)| format!("{}:{}", t, l)).collect::<Vec<_>>().join(";"));
 }
